@@ -1,28 +1,94 @@
 #!/usr/bin/env python3
-"""Summarise seeded/<id>/validation.log files: which tier reported what for each seeded change."""
-import glob, os, re
-rows = []
-for d in sorted(glob.glob(os.path.join(os.path.dirname(__file__), "..", "seeded", "C*"))):
-    log = os.path.join(d, "validation.log")
-    if not os.path.exists(log):
-        continue
-    txt = open(log).read()
-    sid = os.path.basename(d)
-    ded, bnd = [], 0
-    lines = txt.splitlines()
-    for i, l in enumerate(lines):
-        if l.startswith("VIOLATION"):
-            nxt = lines[i + 1] if i + 1 < len(lines) else ""
-            m = re.search(r"obligation (\S+) of (\S+)", nxt)
-            if m:
-                kind = "refuted" if "is refuted" in nxt else ("no longer discharged" if "no longer discharged" in nxt else "?")
-                ded.append("%s (%s)" % (m.group(1), kind))
-            else:
-                bnd += 1
-    m = re.search(r"bounded: (\d+) evaluations, \d+ distinct non-trivial, (\d+) violations", txt)
-    bviol = int(m.group(2)) if m else None
-    m2 = re.search(r"CHECK \S+ exit=(\d+)", txt)
-    dem = re.findall(r"demoted", txt)
-    print("%-8s exit=%s  deductive: %s  | bounded violations: %s%s" % (
-        sid, m2.group(1) if m2 else "?", "; ".join(sorted(set(ded))) or "--", bviol,
-        "  [CHECKER-ERROR]" if "CHECKER-ERROR" in txt else ""))
+"""Summarise seeded/<id>/validation.log files: which tier reported what for each seeded change.
+  tools/seed_table.py             plain listing
+  tools/seed_table.py --design    rewrite the table between the SEED-TABLE markers of DESIGN.md"""
+import glob, json, os, re, sys
+
+ROOT = os.path.join(os.path.dirname(os.path.abspath(__file__)), "..")
+CHANGE = {
+    "C01": "extra `_prune_node` of a deleted leaf (double prune when two leaves are identical)",
+    "C01-r2": "`exists` answers from the node type instead of going through `get`",
+    "C02": "an extension is not merged with the extension left below it after a delete",
+    "C02-r2": "embed a child when `len(rlp) <= 32` (off by one)",
+    "C03": "`_get_proof` drops a node of the path",
+    "C03-r2": "get_from_proof rejects a proof that does not contain the root (the empty trie's proof is empty)",
+    "C04": "ScratchDB.batch_commit rolls a failed commit back by deleting / restoring entries of the wrapped store",
+    "C04-r2": "a non-pruning trie acquires `_ref_count` after its first squash_changes; later batches apply deletes",
+    "C05": "squash_changes adopts the batch's counts and root inside the block that also runs when the commit failed",
+    "C06": "ScratchDB.__delitem__ bookkeeping (trie/utils/db.py)",
+    "C06-r2": "`_complete_pruning` lowers each count by one instead of by the number of prunes",
+    "C07": "`_delete_kv_node` reads the extension child before checking that the key runs through the extension",
+    "C07-r2": "`_set_kv_node` reads the extension child before knowing that the key runs through the extension",
+    "C08": "`root_node` cached per trie object, not invalidated by squash_changes",
+    "C08-r2": "swapped operands in the slice that computes `nibbles_traversed` in `traverse`",
+    "C09": "simulated node of TraversedPartialPath",
+    "C10": "NodeIterator compares only the first nibble of a segment with the key",
+    "C11": "HexaryTrieFog.explore() validation of nested sub-segments",
+    "C12": "BinaryTrie `_set_kv_node`, diverging-keypath branch",
+    "C12-r2": "`_set_branch_node` drops the selecting bit when the remaining child is a leaf",
+    "C13": "`BinaryTrie._get` treats a hash that is not in the database as the empty subtrie",
+    "C13-r2": "`BinaryTrie._get` answers None for a node that is missing from the database",
+    "C14": "SparseMerkleTree.delete drops 'stale' nodes from the database",
+    "C14-r2": "from_db does not forward `default`",
+    "C15": "SparseMerkleProof.update computes the branch point with bit_length and indexes from the end",
+    "C15-r2": "SparseMerkleProof.root_hash cached and never invalidated",
+    "C16": "parse_node splits a kv node at a computed offset that can go negative",
+    "C16-r2": "encode_branch_node checks only the total length of the two children",
+    "C17": "ScratchDB `__delitem__` (buffered delete)",
+    "C17-r2": "ScratchDB `__getitem__` memoises read-through values over delete tombstones",
+    "C18": "`set` no longer validates the value up front",
+    "C18-r2": "`if not ref_count` accepts an empty reference count on a non-pruning trie",
+}
+
+
+def rows():
+    out = []
+    for d in sorted(glob.glob(os.path.join(ROOT, "seeded", "C*"))):
+        log = os.path.join(d, "validation.log")
+        if not os.path.exists(log):
+            continue
+        txt = open(log).read()
+        sid = os.path.basename(d)
+        ded = []
+        lines = txt.splitlines()
+        for i, l in enumerate(lines):
+            if l.startswith("VIOLATION"):
+                nxt = lines[i + 1] if i + 1 < len(lines) else ""
+                m = re.search(r"obligation (\S+) of (\S+)", nxt)
+                if m:
+                    kind = "refuted" if "is refuted" in nxt else ("no longer discharged" if "no longer discharged" in nxt else "?")
+                    ded.append("`%s` %s" % (m.group(1), kind))
+        m = re.search(r"bounded: (\d+) evaluations, \d+ distinct non-trivial, (\d+) violations", txt)
+        bviol = int(m.group(2)) if m else None
+        m2 = re.search(r"CHECK \S+ exit=(\d+)", txt)
+        suite = "215 passed" in txt
+        demo = re.search(r"demo_clean_exit=(\d+) demo_changed_exit=(\d+)", txt)
+        out.append(dict(id=sid, exit=m2.group(1) if m2 else "?", ded=sorted(set(ded)), bounded=bviol, suite=suite,
+                        demo=(demo.group(1), demo.group(2)) if demo else None, err="CHECKER-ERROR" in txt))
+    return out
+
+
+def main():
+    rs = rows()
+    if "--design" not in sys.argv:
+        for r in rs:
+            print("%-8s exit=%s  deductive: %s | bounded violations: %s%s" % (
+                r["id"], r["exit"], "; ".join(r["ded"]) or "--", r["bounded"], "  [CHECKER-ERROR]" if r["err"] else ""))
+        return
+    md = ["| seed | change | quick check exit | deductive tier (baseline-proved obligations reported) | bounded tier |",
+          "|---|---|---|---|---|"]
+    for r in rs:
+        md.append("| %s | %s | %s | %s | %s |" % (
+            r["id"], CHANGE.get(r["id"], ""), r["exit"],
+            "; ".join(r["ded"]) or "-- (no verdict: function not under contract, or unit demoted on the changed code)",
+            ("%d violations" % r["bounded"]) if r["bounded"] else "**none**"))
+    p = os.path.join(ROOT, "DESIGN.md")
+    s = open(p).read()
+    a, b = s.index("<!-- SEED-TABLE-BEGIN -->"), s.index("<!-- SEED-TABLE-END -->")
+    s = s[:a] + "<!-- SEED-TABLE-BEGIN -->\n" + "\n".join(md) + "\n" + s[b:]
+    open(p, "w").write(s)
+    print("DESIGN.md section 12 rewritten from %d validation logs" % len(rs))
+
+
+if __name__ == "__main__":
+    main()
